@@ -44,7 +44,7 @@ class AsyncResult(object):
         for cb in callbacks:
             try:
                 cb(self)
-            except Exception as ex:
+            except BaseException as ex:  # a KeyboardInterrupt / SystemExit from one callback must not lose the others
                 if error is None:
                     error = ex
         if error is not None:
